@@ -196,12 +196,20 @@ def describe_pass(ctx):
             _pk, dyn, _f = build_dynamic(mm, dstyle)
         except Exception as e:
             ctx.violate({'clause': 'dynamic-definition-raised'}, f'{type(e).__name__}: {e}', rep); continue
+        mm.decorate_subclasses = h % 3 == 0
         for style in STYLES:
             try:
                 _pk2, sta, _f2, mod, src = static_render.build(mm, style)
             except Exception as e:
                 ctx.violate({'clause': 'static-definition-raised'}, f'{style}: {type(e).__name__}: {e}',
                             dict(rep, source=static_render.source(mm, style))); continue
+            # the package lists every class once, and answers for each name with that class (as the dynamic package does)
+            listed = [c.name for c in _pk2.eClassifiers]
+            lookups = [_pk2.getEClassifier(f'C{cid}') is sta[cid] for cid in range(len(mm.classes))]
+            if sorted(listed) != sorted(f'C{cid}' for cid in range(len(mm.classes))) or not all(lookups):
+                ctx.violate({'clause': 'description-differs', 'style': style, 'package': True},
+                            f'static ({style}) package lists {listed} for {len(mm.classes)} classes; getEClassifier answers with the class: {lookups}',
+                            dict(rep, source=src))
             for cid in range(len(mm.classes)):
                 ctx.evaluations += 1
                 d, s, want = describe(dyn[cid]), describe(sta[cid]), describe_spec(mm, cid)
@@ -373,7 +381,7 @@ def history_case(ctx, h, nops, tmp, model_in, expect):
             if queries(w2) != queries(w):
                 ctx.violate({'clause': 'views-differ'}, f'fragments / contents / roots differ between dynamic and static ({style})', rep)
             # (allInstances scans every object the process ever made: sampled)
-            iv_d, iv_s = (instances_view(w, False), instances_view(w2, True)) if h % 5 == 0 else (None, None)
+            iv_d, iv_s = (instances_view(w, False), instances_view(w2, True)) if h % 2 == 0 else (None, None)
             if iv_d != iv_s:
                 ctx.violate({'clause': 'allInstances-differ'}, f'allInstances (all, and per resource) differ: dynamic {iv_d} vs static ({style}) {iv_s}', rep)
     # both renderings against the Lean model driven by the description
